@@ -98,8 +98,15 @@ def fo_strategy():
         'with_altitude': st.booleans(),
         'sensors': st.lists(st.sampled_from(['Position', 'NedVelocity', 'BodyVelocity']), min_size=1, max_size=3, unique=True),
         'sm': st.booleans(),
+        # round-4 seeds: where the epochs sit relative to the IMU samples, attitude-dependent measurements during a banked turn
+        'placement': st.sampled_from(['rows', 'rows', 'between', 'between', 'first_interval', 'start']),
+        'lever': st.booleans(),
+        'dyn': st.sampled_from([0, 1, 1]),
         'sub': st.integers(0, 2 ** 31 - 1),
     })
+
+
+ARM = np.array([1.5, -0.7, 0.4])
 
 
 def _fo_run(ctx, case, s):
@@ -112,10 +119,14 @@ def _fo_run(ctx, case, s):
     t = dt * np.arange(1, n + 1)
     crs = np.radians(case['heading'])
     v = case['speed']
-    pva = pd.Series([case['lat'], case['lon'], 200.0, v * np.cos(crs), v * np.sin(crs), 0.0, 2.0, -3.0, case['heading']], index=TRAJ, name=0.0)
+    dyn = case.get('dyn', 0)
+    roll0, pitch0 = (2.0, -3.0) if dyn == 0 else (20.0, -12.0)
+    pva = pd.Series([case['lat'], case['lon'], 200.0, v * np.cos(crs), v * np.sin(crs), 0.0, roll0, pitch0, case['heading']], index=TRAJ, name=0.0)
     C0 = np.asarray(ROT.dcm_from_rph(pva[EC.RPH].values.astype(float)), float)
     g = float(W.gravity(case['lat'], 200.0))
     w = 0.03 * np.column_stack([np.sin(0.3 * t + 0.2), np.cos(0.2 * t), np.sin(0.25 * t + 1.0)])
+    if dyn:
+        w = w + np.array([0.0, 0.0, 0.3])          # steady 17 deg/s turn about the body z axis while rolled and pitched
     fn = np.column_stack([0.8 * np.sin(0.2 * t), 0.6 * np.cos(0.15 * t), -g + (0.2 * np.sin(0.3 * t) if wa else 0 * t)])
     # body-frame specific force from the attitude history (own propagation of the body rate), so that the navigation-frame
     # force is the designed one: in the no-altitude mode the vertical force must stay balanced (= -g) for the 2D model to apply
@@ -152,14 +163,30 @@ def _fo_run(ctx, case, s):
     start.name = 0.0
     ms = []
     rs = np.random.RandomState(case['sub'] ^ 0x77)
+    from pyins import transform
+    from .c11 import interp_pose
+    pl = case.get('placement', 'rows')
+    arm = ARM if case.get('lever') else None
     for j, cls in enumerate(case['sensors']):
         off = 0 if case['sub'] % 2 == 0 else 7 * j          # even sub-seeds: all sensors share their epochs
-        rows = truth.iloc[hz + off::2 * hz]
+        pos = np.arange(hz + off, n, 2 * hz)                 # row numbers (row k is at time k dt)
+        frac = np.zeros(len(pos))
+        if pl == 'between':
+            frac = np.random.RandomState(case['sub'] ^ (0x51 + (0 if case['sub'] % 2 == 0 else j))).uniform(0.1, 0.9, len(pos)) * case.get('frac_scale', 1.0)
+        elif pl == 'first_interval':
+            pos, frac = np.r_[0, pos], np.r_[0.3 + 0.1 * (0 if case['sub'] % 2 == 0 else j), frac]
+        elif pl == 'start':
+            pos, frac = np.r_[0, pos], np.r_[0.0, frac]
+        rows = pd.DataFrame([truth.iloc[k] if a == 0 else interp_pose(truth.iloc[k], truth.iloc[k + 1], a) for k, a in zip(pos, frac)],
+                            index=pd.Index((pos + frac) * dt, name='time'), columns=TRAJ)
+        if arm is not None and cls != 'BodyVelocity':
+            rates = pd.DataFrame(w[np.minimum(pos, n - 1)], index=rows.index, columns=['rate_x', 'rate_y', 'rate_z'])
+            rows = transform.translate_trajectory(pd.concat([rows, rates], axis=1), arm)[TRAJ]       # the antenna's trajectory
         e = rs.randn(len(rows), 3)
         if cls == 'Position':
-            ms.append(measurements.Position(sim.generate_position_measurements(rows, 1.0, _Fixed(e * 2.0 * s)), 2.0 * s))
+            ms.append(measurements.Position(sim.generate_position_measurements(rows, 1.0, _Fixed(e * 2.0 * s)), 2.0 * s, arm))
         elif cls == 'NedVelocity':
-            ms.append(measurements.NedVelocity(sim.generate_ned_velocity_measurements(rows, 1.0, _Fixed(e * 0.1 * s)), 0.1 * s))
+            ms.append(measurements.NedVelocity(sim.generate_ned_velocity_measurements(rows, 1.0, _Fixed(e * 0.1 * s)), 0.1 * s, arm))
         else:
             ms.append(measurements.BodyVelocity(sim.generate_body_velocity_measurements(rows, 1.0, _Fixed(e * 0.1 * s)), 0.1 * s))
     fbr = ctx.sut(filters.run_feedback_filter, start, *sds, inc, gm, am, ms, time_step=case['time_step'], with_altitude=wa)
@@ -205,6 +232,7 @@ def disagreement(fbr, ffr):
 # leave >= 1.3x / 2.5x above the measured floor.
 B_FLOOR = 0.1
 TAU = 0.2
+ZOH = 1.0          # allowance for the known between-sample hold floor (measured max 0.44 sigma)
 B_SD = 0.02        # relative disagreement of the standard-deviation tables: measured floor 1e-3
 TAU_SD = 0.02
 
@@ -212,7 +240,8 @@ TAU_SD = 0.02
 def run_first_order(case, ctx):
     ctx.label('mode=3D' if case['with_altitude'] else 'mode=2D', f"sensors={len(case['sensors'])}", 'sm' if case['sm'] else 'no_sm',
               'shared_epochs' if (case['sub'] % 2 == 0 and len(case['sensors']) > 1) else 'separate_epochs',
-              f"step={case['time_step']}", f"speed={case['speed']}",
+              f"step={case['time_step']}", f"speed={case['speed']}", f"epochs={case.get('placement', 'rows')}",
+              'lever' if case.get('lever') else 'no_lever', 'banked_turn' if case.get('dyn') else 'gentle',
               'bias_axes=leading_block' if (sorted(case.get('gyro_axes', [1]), reverse=True) == list(case.get('gyro_axes', [1])) and
                                             sorted(case.get('accel_axes', [1]), reverse=True) == list(case.get('accel_axes', [1]))) else 'bias_axes=gap_before_enabled')
     D = {}
@@ -222,19 +251,34 @@ def run_first_order(case, ctx):
         D[s], ncommon = disagreement(fbr, ffr)
         ctx.check(ncommon >= 5, 'no_common_result_times', f'{ncommon}')
     names = list(D[1.0].keys())
+    # epochs between IMU samples: known finding C12-between-sample-hold (DESIGN 9.2). Both filters hold the error state over the
+    # fraction of the IMU interval before the epoch, and the feedforward filter holds the whole *estimated* error, which makes the
+    # two differ at first order by ~ dt |x_v| / sigma_p: a flat floor measured at <= 0.44 sigma (64 cases, p90 0.27) at 20 Hz.
+    # Such cases are judged against the wider allowance ZOH; inside it but above the ordinary floor they are counted as the
+    # known finding, beyond it they are violations like any other.
+    held = case.get('placement', 'rows') in ('between', 'first_interval')
+    over_base = []
     for q in names:
         lad = [D[x][q] for x in LAD]
         is_sd = q.endswith('_sd')
-        for a, b in zip(LAD[:-1], LAD[1:]):
+        b, tau = (B_SD, TAU_SD) if is_sd else (B_FLOOR, TAU)
+        wide = held and not is_sd
+        for a, bb in zip(LAD[:-1], LAD[1:]):
             # the first step leaves the strongly non-linear regime (5 deg azimuth error): only require halving there
-            lim = (0.5 if a == 1.0 else 0.2) * D[a][q] + (B_SD if is_sd else B_FLOOR)
-            ctx.stat(f'shrink_{q}', D[b][q] / lim)
-            ctx.check(D[b][q] <= lim, f'disagreement_not_shrinking:{q}',
+            shrink = (0.5 if a == 1.0 else 0.2) * D[a][q]
+            ctx.stat(f'shrink_{q}' + ('_held' if wide else ''), D[bb][q] / (shrink + (ZOH if wide else b)))
+            ctx.check(D[bb][q] <= shrink + (ZOH if wide else b), f'disagreement_not_shrinking:{q}',
                       lambda: f'case={case}: {q} disagreement over the ladder s={LAD}: {lad} (sigma units)')
-        tau = TAU_SD if is_sd else TAU
-        ctx.stat(f'small_scale_{q}', D[LAD[-1]][q] / tau)
-        ctx.check(D[LAD[-1]][q] <= tau, f'first_order_disagreement:{q}',
+            if D[bb][q] > shrink + b:
+                over_base.append((q, lad))
+        ctx.stat(f'small_scale_{q}' + ('_held' if wide else ''), D[LAD[-1]][q] / (ZOH if wide else tau))
+        ctx.check(D[LAD[-1]][q] <= (ZOH if wide else tau), f'first_order_disagreement:{q}',
                   lambda: f'case={case}: at error scale {LAD[-1]} the filters disagree in {q} by {D[LAD[-1]][q]:.3e} sigma; ladder {lad}')
+        if D[LAD[-1]][q] > tau:
+            over_base.append((q, lad))
+    if over_base:
+        ctx.check(False, 'first_order_floor:between_sample_epochs',
+                  lambda: f'case={case}: epochs between IMU samples leave a disagreement floor that does not shrink with the error scale: {over_base[:3]}')
     ctx.mark_nontrivial(max(D[1.0].values()) >= 0.2 and len(case['sensors']) >= 2)
 
 
